@@ -39,10 +39,11 @@ WRITER_ENV = {"tsp": "TSPEnv", "vrp": "CVRPEnv", "pdp": "PDPEnv", "op": "OPEnv",
 
 
 def dict_keys_of_returns(fn_node):
+    from ..model import returned_exprs
     keys = None
-    for n in ast.walk(fn_node):
-        if isinstance(n, ast.Return) and isinstance(n.value, ast.Dict):
-            ks = {k.value for k in n.value.keys if isinstance(k, ast.Constant)}
+    for v in returned_exprs(fn_node):
+        if isinstance(v, ast.Dict):
+            ks = {k.value for k in v.keys if isinstance(k, ast.Constant)}
             keys = ks if keys is None else (keys & ks)
     return keys
 
